@@ -471,14 +471,22 @@ void QXmppIncomingClient::onDigestReply()
     }
     reply->deleteLater();
 
-    if (reply->error() == QXmppPasswordReply::TemporaryError) {
-        warning(u"Temporary authentication failure for '%1' from %2"_s.arg(d->saslServer->username(), d->origin()));
-        Q_EMIT updateCounter(u"incoming-client.auth.temporary-auth-failure"_s);
+    // a failed lookup ends the exchange, whatever digest the reply carries
+    if (reply->error() != QXmppPasswordReply::NoError) {
+        auto condition = Sasl::ErrorCondition::NotAuthorized;
+        if (reply->error() == QXmppPasswordReply::TemporaryError) {
+            condition = Sasl::ErrorCondition::TemporaryAuthFailure;
+            warning(u"Temporary authentication failure for '%1' from %2"_s.arg(d->saslServer->username(), d->origin()));
+            Q_EMIT updateCounter(u"incoming-client.auth.temporary-auth-failure"_s);
+        } else {
+            warning(u"Authentication failed for '%1' from %2"_s.arg(d->saslServer->username(), d->origin()));
+            Q_EMIT updateCounter(u"incoming-client.auth.not-authorized"_s);
+        }
         if (d->saslVersion == QXmppIncomingClientPrivate::Sasl) {
-            sendData(serializeXml(Sasl::Failure { Sasl::ErrorCondition::TemporaryAuthFailure, QString() }));
+            sendData(serializeXml(Sasl::Failure { condition, QString() }));
         } else {
             d->sasl2AuthRequest.reset();
-            sendData(serializeXml(Sasl2::Failure { Sasl::ErrorCondition::TemporaryAuthFailure, QString() }));
+            sendData(serializeXml(Sasl2::Failure { condition, QString() }));
         }
         disconnectFromHost();
         return;
